@@ -101,55 +101,66 @@ Proof. exact (send_v1_sound digest deq deq_spec). Qed.
    per MD5 message the machine answers with SUCC:<digest> (= per file it reports as saved);
    the recording does not influence the machine. *)
 Variable zdecomp unzl : list byte -> option (list byte).
+(* the abstract external functions of the two sub-protocols composed into Model/Transfer.v: the prefix
+   digest of the resume exchange, the header coding of archive entries (nothing is assumed of them) *)
+Variable hx : list byte -> Resume.digest.
+Variable ahdr : src -> Z -> list byte.
+Variable aparse : list byte -> option (src * Z).
 
 Theorem C02_transfer_ghost_transparent : forall c dest ms st g,
-  ft_feed digest H deq zdecomp unzl c dest st ms =
-    (fst (fst (ft_run digest H deq zdecomp unzl c dest st g ms)), snd (fst (ft_run digest H deq zdecomp unzl c dest st g ms))).
-Proof. exact (ft_run_feed digest H deq zdecomp unzl). Qed.
+  ft_feed digest H deq zdecomp unzl hx aparse c dest st ms =
+    (fst (fst (ft_run digest H deq zdecomp unzl hx aparse c dest st g ms)), snd (fst (ft_run digest H deq zdecomp unzl hx aparse c dest st g ms))).
+Proof. exact (ft_run_feed digest H deq zdecomp unzl hx aparse). Qed.
 
 (* SUCC:<digest> is only ever written in answer to an MD5 message, in the phase that waits for
    it, when the delivered value equals the digest of what was written *)
 Theorem C02_transfer_answer_only_md5 : forall c dest st m x,
-  In (TrSuccDigest digest x) (snd (tr_receiver digest H deq zdecomp unzl c dest st m)) ->
+  In (TrSuccDigest digest x) (snd (tr_receiver digest H deq zdecomp unzl hx aparse c dest st m)) ->
   exists p w d, rs_phase st = RpMd5 p w /\ m = TrMd5 digest d /\ deq d (H w) = true /\ x = H w.
-Proof. exact (ft_digest_answer digest H deq zdecomp unzl). Qed.
+Proof. exact (ft_digest_answer digest H deq zdecomp unzl hx aparse). Qed.
 
 (* the bridging lemma: per-file acceptance by the whole-transfer machine IS acceptance by the
    per-file decision model (recv_v2 for protocol >= 2, recv_v1 for protocol 1) of exactly the
    messages delivered for that file, with exactly the bytes the machine wrote *)
 Theorem C02_transfer_bridge : forall c dest f0 sch ms sv,
-  In sv (snd (ft_receive digest H deq zdecomp unzl c dest f0 sch ms)) ->
+  In sv (snd (ft_receive digest H deq zdecomp unzl hx aparse c dest f0 sch ms)) ->
   rs_phase (fv_before digest sv) = RpMd5 (fv_payload digest sv) (fv_content digest sv) /\
-  fst (tr_receiver digest H deq zdecomp unzl c dest (fv_before digest sv) (TrMd5 digest (fv_md5 digest sv))) = fv_after digest sv /\
+  fst (tr_receiver digest H deq zdecomp unzl hx aparse c dest (fv_before digest sv) (TrMd5 digest (fv_md5 digest sv))) = fv_after digest sv /\
   In (TrSuccDigest digest (H (fv_content digest sv)))
-     (snd (tr_receiver digest H deq zdecomp unzl c dest (fv_before digest sv) (TrMd5 digest (fv_md5 digest sv)))) /\
+     (snd (tr_receiver digest H deq zdecomp unzl hx aparse c dest (fv_before digest sv) (TrMd5 digest (fv_md5 digest sv)))) /\
   ft_verdict digest H deq zdecomp unzl c sv = Accept (fv_content digest sv).
-Proof. exact (ft_receive_bridge digest H deq zdecomp unzl). Qed.
+Proof. exact (ft_receive_bridge digest H deq zdecomp unzl hx aparse). Qed.
 
 Theorem C02_transfer_receiver_sound : forall c dest f0 sch ms sv,
-  In sv (snd (ft_receive digest H deq zdecomp unzl c dest f0 sch ms)) ->
+  In sv (snd (ft_receive digest H deq zdecomp unzl hx aparse c dest f0 sch ms)) ->
   fv_md5 digest sv = H (fv_content digest sv) /\
   (tr_pipeline c = true -> tr_blen (fv_content digest sv) = fv_size digest sv) /\
   (tr_pipeline c = false -> (fv_size digest sv <= tr_blen (fv_content digest sv))%N).
-Proof. exact (ft_saved_sound digest H deq deq_spec zdecomp unzl). Qed.
+Proof. exact (ft_saved_sound digest H deq deq_spec zdecomp unzl hx aparse). Qed.
 
 (* ... and right after the answer the (abstract) file system holds exactly these bytes at the place of
-   the file: destination / local name / rest of the relative path *)
+   the file: destination / local name / rest of the relative path - for a file written whole; for a
+   RESUMED file (the receiver still holds the existing file, cut at its matchStep: [rs_open]) it holds the
+   kept part followed by exactly these bytes.  (An archive's "file" is the entry stream; what its writer
+   makes of an accepted stream is C15's subject.) *)
 Theorem C02_transfer_saved_on_fs : forall c dest f0 sch ms sv,
-  In sv (snd (ft_receive digest H deq zdecomp unzl c dest f0 sch ms)) ->
-  exists ln, ft_leaf digest c dest sv = Some (dest ++ ln :: tr_p_tail (fv_payload digest sv)) /\
-    lookup (st_fs (rs_st (fv_after digest sv))) (dest ++ ln :: tr_p_tail (fv_payload digest sv)) = Some (File (fv_content digest sv)).
-Proof. exact (ft_receive_saved_on_fs digest H deq zdecomp unzl). Qed.
+  In sv (snd (ft_receive digest H deq zdecomp unzl hx aparse c dest f0 sch ms)) ->
+  (rs_open (fv_before digest sv) = None -> tr_p_archive (fv_payload digest sv) = false ->
+   exists ln, ft_leaf digest c dest sv = Some (dest ++ ln :: tr_p_tail (fv_payload digest sv)) /\
+     lookup (st_fs (rs_st (fv_after digest sv))) (dest ++ ln :: tr_p_tail (fv_payload digest sv)) = Some (File (fv_content digest sv))) /\
+  (forall leaf f rest, rs_open (fv_before digest sv) = Some (leaf, f, rest) ->
+     lookup (st_fs (rs_st (fv_after digest sv))) leaf = Some (File (Resume.f_data (Resume.f_write f (fv_content digest sv))))).
+Proof. exact (ft_receive_saved_on_fs digest H deq zdecomp unzl hx aparse). Qed.
 
 (* C02 for the whole transfer: whatever sequence of messages is delivered, every file the
    receiver reports as saved has digest = the delivered MD5 value and (protocol >= 2) the
    announced size; hence, under the two digest hypotheses, it equals the source *)
 Theorem C02_transfer_no_silent : forall c dest f0 sch ms sv src,
-  In sv (snd (ft_receive digest H deq zdecomp unzl c dest f0 sch ms)) ->
+  In sv (snd (ft_receive digest H deq zdecomp unzl hx aparse c dest f0 sch ms)) ->
   unforged digest H src (fv_content digest sv) (fv_md5 digest sv) ->
   collision_free_on digest H src (fv_content digest sv) ->
   fv_content digest sv = src.
-Proof. exact (ft_no_silent digest H deq deq_spec zdecomp unzl). Qed.
+Proof. exact (ft_no_silent digest H deq deq_spec zdecomp unzl hx aparse). Qed.
 
 (* the whole-transfer SENDER under ANY delivered answer sequence: every file it counts as done (the
    echo of its MD5 message accepted; [ft_send] records one [ft_done] per such file) is a file for
@@ -159,8 +170,8 @@ Proof. exact (ft_no_silent digest H deq deq_spec zdecomp unzl). Qed.
 Variable zcomp : list (list byte) -> list (list byte).
 Variable zl : list byte -> list byte.
 Theorem C02_transfer_sender_bridge : forall c ess ms dn,
-  In dn (snd (ft_send digest H deq zcomp zl c ess ms)) -> ft_sverdict digest H deq c dn = true.
-Proof. exact (ft_send_bridge digest H deq zcomp zl). Qed.
+  In dn (snd (ft_send digest H deq zcomp zl hx ahdr c ess ms)) -> ft_sverdict digest H deq c dn = true.
+Proof. exact (ft_send_bridge digest H deq zcomp zl hx ahdr). Qed.
 End C02.
 
 Print Assumptions C02_receiver_sound_v2.
@@ -200,7 +211,7 @@ Example C02_transfer_nonvacuous :
   let f0 : fs := [([[100]], Dir)] in
   let ms := [TrNum _ 1; TrName _ (TrPlain [97]); TrSize _ 3; TrData _ [1; 2]; TrKeepAlive _; TrData _ [3]; TrData _ [];
              TrMd5 _ [1; 2; 3]] in
-  let r := ft_receive (list byte) (fun x => x) list_eqb (fun x => Some x) (fun x => Some x) c [[100]] f0 [] ms in
+  let r := ft_receive (list byte) (fun x => x) list_eqb (fun x => Some x) (fun x => Some x) (fun x => x) (fun _ => None) c [[100]] f0 [] ms in
   (rs_phase (fst (fst r)), map (fun sv => (fv_size _ sv, fv_content _ sv, fv_md5 _ sv)) (snd r),
    lookup (st_fs (rs_st (fst (fst r)))) [[100]; [97]]) =
   (RpDone, [(3%N, [1; 2; 3], [1; 2; 3])], Some (File [1; 2; 3])).
@@ -211,7 +222,7 @@ Example C02_transfer_flip_rejected :
   let f0 : fs := [([[100]], Dir)] in
   let ms := [TrNum _ 1; TrName _ (TrPlain [97]); TrSize _ 3; TrData _ [1; 7]; TrData _ [3]; TrData _ [];
              TrMd5 _ [1; 2; 3]] in
-  let r := ft_receive (list byte) (fun x => x) list_eqb (fun x => Some x) (fun x => Some x) c [[100]] f0 [] ms in
+  let r := ft_receive (list byte) (fun x => x) list_eqb (fun x => Some x) (fun x => Some x) (fun x => x) (fun _ => None) c [[100]] f0 [] ms in
   (rs_phase (fst (fst r)), snd r) = (RpFail, []).
 Proof. vm_compute. reflexivity. Qed.
 (* ... a dropped frame (size 3 announced, 2 bytes delivered) with an MD5 message forged to the digest
@@ -220,7 +231,7 @@ Example C02_transfer_short_rejected :
   let c := mkTrCfg 2 true false false 0 [] false in
   let f0 : fs := [([[100]], Dir)] in
   let ms := [TrNum _ 1; TrName _ (TrPlain [97]); TrSize _ 3; TrData _ [1; 2]; TrData _ []; TrMd5 _ [1; 2]] in
-  let r := ft_receive (list byte) (fun x => x) list_eqb (fun x => Some x) (fun x => Some x) c [[100]] f0 [] ms in
+  let r := ft_receive (list byte) (fun x => x) list_eqb (fun x => Some x) (fun x => Some x) (fun x => x) (fun _ => None) c [[100]] f0 [] ms in
   (rs_phase (fst (fst r)), snd r) = (RpFail, []).
 Proof. vm_compute. reflexivity. Qed.
 (* ... and protocol 1 (every chunk decoded on its own, the loop may overshoot the announced size):
@@ -230,7 +241,7 @@ Example C02_transfer_v1_overshoot :
   let c := mkTrCfg 0 true false false 0 [] false in
   let f0 : fs := [([[100]], Dir)] in
   let ms := [TrNum _ 1; TrName _ (TrPlain [97]); TrSize _ 3; TrData _ [1; 2]; TrData _ [1; 2]; TrMd5 _ [1; 2; 1; 2]] in
-  let r := ft_receive (list byte) (fun x => x) list_eqb (fun x => Some x) (fun x => Some x) c [[100]] f0 [] ms in
+  let r := ft_receive (list byte) (fun x => x) list_eqb (fun x => Some x) (fun x => Some x) (fun x => x) (fun _ => None) c [[100]] f0 [] ms in
   (rs_phase (fst (fst r)), map (fun sv => (fv_size _ sv, fv_content _ sv)) (snd r)) = (RpDone, [(3%N, [1; 2; 1; 2])]).
 Proof. vm_compute. reflexivity. Qed.
 
@@ -286,11 +297,11 @@ Print Assumptions C02_resume_old_refuted.
 (* the sender bridge is not vacuous: protocol 2, one file of 3 bytes sent as frames of 2 and 1 bytes *)
 Example C02_transfer_sender_nonvacuous :
   let c := mkTrCfg 2 true false false 0 [] true in
-  let e := mkTrEntry 0 [[97]] false [[1; 2; 3]] in
-  let ess := [(e, mkTrSched [2]%nat 1 false [] [])] in
+  let e := mkTrEntry 0 [[97]] false [[1; 2; 3]] [] in
+  let ess := [(e, mkTrSched [2]%nat 1 false [] [] None [] 0 [] 1)] in
   let ms := [TrSuccInt _ 1; TrSuccName _ [97]; TrSuccInt _ 3; TrSuccAck _ 2 0; TrKeepAlive _; TrSuccAck _ 1 3; TrSuccAck _ 0 3;
              TrSuccInt _ 2; TrSuccInt _ 3; TrSuccDigest _ [1; 2; 3]] in
-  let r := ft_send (list byte) (fun x => x) list_eqb (fun x => x) (fun x => x) c ess ms in
+  let r := ft_send (list byte) (fun x => x) list_eqb (fun x => x) (fun x => x) (fun x => x) (fun _ _ => []) c ess ms in
   (ss_phase (fst (fst r)), map (fun dn => (fd_sent _ dn, length (fd_msgs _ dn))) (snd r)) = (SpDone, [([2; 1; 0]%N, 7%nat)]).
 Proof. vm_compute. reflexivity. Qed.
 
